@@ -140,6 +140,45 @@ PARSING_QUERIES = [
     ('assignment-before-update', 'a3 = "zzz" update a1 = "x"'),
     ('paren-before-select', '( select a1 )'),
 ]
+JS_PARSING_QUERIES = [
+    ('two-where', 'select a1 where a1 == "x" where a2 == "y"'),
+    ('select-not-first', 'where a1 == "x" select a1'),
+    ('select-and-update', 'select a1 update a2 = 1'),
+    ('order-by-in-update', 'update a1 = "x" order by a1'),
+    ('assignment-in-where', 'select a1 where a1 = "x"'),
+    ('assignment-in-where-parenthesised', 'select a1 where (a1 = "x")'),
+    ('assignment-in-where-nested', 'select a1 where a2 == "y" && (a1 = "x" || a2 == "z")'),
+    ('assignment-in-where-after-member', 'select a1 where a1.length = 1'),
+    ('assignment-in-where-no-spaces', 'select a1 where a1 == "x" && a2="y"'),
+    ('assignment-in-where-under-not', 'select a1 where !(a1 =  "x")'),
+    ('assignment-in-where-beside-strict-comparisons', 'select a1 where a1 === "x" && a2 !== "y" && a3 = "z"'),
+    ('assignment-in-update-where', 'update a1 = "k" where (a2 = "y")'),
+    ('bad-limit', 'select a1 limit x'),
+    ('except-with-join', 'select * except a1 join b on a1 == b1'),
+    ('unknown-update-field', 'update a.nosuch = 1'),
+    ('unknown-except-field', 'select * except a.nosuch'),
+    ('unknown-join-field', 'select a1 join b on a1 == b.nosuch'),
+    ('bad-join-syntax', 'select a1 join b a1 == b1'),
+    ('star-and-alias-without-header', 'select *, a1 as x'),
+    ('aggregate-with-order-by', 'select a1, COUNT(*) order by a1'),
+    ('aggregate-inside-expression', 'select String(COUNT(1)) + "x"'),
+    ('aggregate-attribute', 'select a2, COUNT(a1).real group by a2'),
+    ('aggregate-in-arithmetic', 'select SUM(a1) / 2'),
+    ('double-unnest', 'select UNNEST([1, 2]), UNNEST([3, 4])'),
+    ('no-select-no-update', 'where a1 == "x"'),
+    ('update-without-assignment', 'update "x"'),
+    ('empty-select', 'select'),
+    ('group-by-in-update', 'update a1 = "x" group by a1'),
+    ('two-joins', 'select a1 join b on a1 == b1 join b on a2 == b2'),
+    ('distinct-aggregate', 'select distinct COUNT(*)'),
+    ('typo-before-select', 'selec a1, a2 select a2'),
+    ('prompt-before-select', 'rbql> select a1'),
+    ('top-before-select', 'top 1 select a1'),
+    ('number-before-select', '1 select a1, a2'),
+    ('set-before-update', 'set a1 = "x" update a2 = "y"'),
+    ('assignment-before-update', 'a3 = "zzz" update a1 = "x"'),
+    ('paren-before-select', '( select a1 )'),
+]
 NEEDS_HEADER = {'unknown-update-field', 'unknown-except-field', 'unknown-join-field'}
 NO_HEADER = {'star-and-alias-without-header'}
 
@@ -293,6 +332,40 @@ def leg_parsing(ns, res, spec):
                 res.violation('py:record-written-before-parsing-error:' + name, '[py] %d records written before the parsing error of %r' % (o.writes, text), case)
             res.count('no_write_before_parsing_error_checks')
     res.sample({'leg': 'parsing', 'queries': [q for _n, q in PARSING_QUERIES[:6]]})
+    # the JS port: the same mistakes written in its host syntax
+    from ..js import bridge
+    node = bridge.Node.start()
+    if node is None:
+        res.notes.append('js parsing leg: unavailable (no node)')
+        return
+    try:
+        import re
+        reqs, meta = [], []
+        for name, qtext in JS_PARSING_QUERIES:
+            for variant in range(6):
+                A = [['a', 'b', 'c'], ['x', 'y', 'z'], ['a', 'y', 'c']][:rng.randrange(1, 4)]
+                B = [['a', 'J'], ['x', 'K']]
+                hdr = name in NEEDS_HEADER or (name not in NO_HEADER and variant % 2 == 0)
+                text = qtext
+                if variant == 3:
+                    text = re.sub(r'\b(select|where|update|order by|group by|limit|except|join|on|distinct|top)\b', lambda mo: mo.group(1).upper(), qtext)
+                elif variant == 4:
+                    text = '  ' + qtext.replace(' ', '  ') + ' ;'
+                reqs.append({'query': text, 'input': A, 'join': B, 'input_cols': ['n1', 'n2', 'n3'] if hdr else None, 'join_cols': ['m1', 'm2'] if hdr else None, 'mutating_sink': variant == 5})
+                meta.append((name, text, A, hdr))
+        outs = node.call({'op': 'query_batch', 'cases': reqs})['results']
+        for (name, text, A, hdr), o in zip(meta, outs):
+            res.evaluations += 1
+            res.count('js_parsing_runs')
+            res.distinct_disjoint += 1
+            case = {'leg': 'js-parsing', 'name': name, 'query_text': text, 'A': A, 'header': hdr, 'engine': 'js'}
+            cls = o['error'] and o['error']['cls']
+            if cls != 'RbqlParsingError':
+                res.violation('js:static-mistake-not-a-parsing-error:' + name, '[js] %r must be reported as a parsing error, got %r: %s (rows %r)' % (text, cls, (o['error'] or {}).get('msg', '')[:160], o['out']), case)
+            if o['out']:
+                res.violation('js:record-written-before-parsing-error:' + name, '[js] %d records written before the parsing error of %r' % (len(o['out']), text), case)
+    finally:
+        node.close()
 
 
 def leg_io(ns, res, spec):
@@ -390,6 +463,45 @@ def predict_warnings(text, in_policy, encoding, query_kind, out_policy, out_deli
     return sorted(exp, key=lambda x: x[0])
 
 
+def leg_warnings_js(res, js_cases):
+    """The same anomaly subsets through the JS reader (bulk, and streamed in two chunks), engine and writer: the same warnings iff."""
+    import re
+    from ..js import bridge
+    node = bridge.Node.start()
+    if node is None:
+        res.notes.append('js warnings leg: unavailable (no node)')
+        return
+    try:
+        Q = {'star': 'select *', 'two': 'select a1, a2', 'list': 'select a1, [a1, a2]', 'agg': 'select a1, ARRAY_AGG(a2) group by a1'}
+        reqs = []
+        for n, (text, query_kind, out_policy, out_delim, exp) in enumerate(js_cases):
+            data = text.encode('utf-8')
+            chunks = None if n % 2 == 0 else [c for c in (len(data) // 2, len(data) - len(data) // 2) if c > 0]
+            reqs.append({'bytes_hex': data.hex(), 'chunks': chunks, 'encoding': 'utf-8', 'delim': ',', 'policy': 'quoted', 'has_header': False, 'comment_prefix': None,
+                         'query': Q[query_kind], 'out_delim': out_delim, 'out_policy': out_policy})
+        outs = []
+        for i in range(0, len(reqs), 400):
+            outs += node.call({'op': 'query_csv_text_batch', 'cases': reqs[i:i + 400]})['results']
+        for (text, query_kind, out_policy, out_delim, exp), rq, o in zip(js_cases, reqs, outs):
+            res.evaluations += 1
+            res.count('js_warning_runs')
+            case = {'leg': 'js-warnings', 'text': text, 'query_kind': query_kind, 'out_policy': out_policy, 'out_delim': out_delim, 'chunks': rq['chunks'], 'engine': 'js'}
+            if o['error'] is not None:
+                res.violation('js:warning-scenario-raised', '[js] %r raised %r' % (text, o['error']), case)
+                continue
+            got = sorted(((util.warning_kind(w), tuple(int(x) for x in re.findall(r'\d+', w))) for w in o['warnings']), key=lambda x: x[0])
+            exp_kinds = [k for k, _n in exp]
+            got_kinds = [k for k, _n in got]
+            if exp_kinds != got_kinds:
+                res.violation('js:warnings-not-iff', '[js] CSV %r (%s, out %s %r, chunks %r): warnings %r, expected kinds %r' % (text, query_kind, out_policy, out_delim, rq['chunks'], o['warnings'], exp_kinds), case)
+                continue
+            for (k, en), (_k2, gn) in zip(exp, got):
+                if k == 'fields' and en != gn:
+                    res.violation('js:field-count-warning-cites-wrong-records', '[js] CSV %r: field-count warning cites %r, expected (record, fields, record, fields) = %r : %r' % (text, gn, en, o['warnings']), case)
+    finally:
+        node.close()
+
+
 def leg_warnings(ns, res, spec):
     rng = random.Random(spec['seed'] * 19 + spec['shard'])
     import re
@@ -400,6 +512,7 @@ def leg_warnings(ns, res, spec):
         'sepfield': ['p;q,r', ';,;'],
     }
     count = 0
+    js_cases = []
     for mask in range(0, 16):
         for rep in range(spec['n']):
             lines = [rng.choice(pieces_ok[:3]) for _ in range(rng.randrange(1, 5))]
@@ -456,6 +569,8 @@ def leg_warnings(ns, res, spec):
             count += 1
             if count % 211 == 1:
                 res.sample({'leg': 'warnings', 'text': text, 'query': query_kind, 'warnings': warnings, 'expected': [list(x) for x in exp]})
+            js_cases.append((text, query_kind, out_policy, out_delim, exp))
+    leg_warnings_js(res, js_cases)
     # the header line is output too: a column name holding the output delimiter under the simple policy must be reported
     for rep in range(spec['n'] * 2):
         names = [rng.choice(['k', 'unit;price', 'a b', 'v;w', 'n']) for _ in range(2)]
@@ -550,9 +665,9 @@ def run_shard(spec, res):
 
 def summarize(tier, seed, m):
     return {
-        'rule': 'fault enumeration: one (and two: the first must be named) poisoned record at every position k of tables of 1..6 records x 14 clause placements (SELECT, WHERE, ORDER BY key, GROUP BY key, aggregate argument, aggregate over a failing expression, UPDATE right-hand side, UPDATE target beyond the record, JOIN key on A, composite JOIN key on A (non-adjacent columns), JOIN key on B, missing field under .upper() in SELECT / WHERE, UNNEST list) with poison kinds non-numeric cell under int() / numeric aggregate, missing field, missing join key; %d statically detectable mistakes x 6 spelling / header variants (parsing error, zero records written); an invalid byte sequence at every offset of a UTF-8 file x 7 sequences x 3 chunk sizes, header / column-list inconsistencies, defective quoted_rfc quoting (IO-handling error); every subset of the anomalies {ragged, malformed quote, separator in simple output, BOM} (+ None from short records) on header-less full-scan queries with the exact iff and the cited record numbers. the poisoned record at every position of 2-6 record tables delivered by front-ends whose own numbering differs from the record number (CSV with header line, comment lines and multi-line cells through query_csv and the command line; a dataframe with a non-default index; a sqlite table with rowid gaps) under six query shapes: query-execution error naming record k; colorized simple / whitespace output (2-17 columns, delimiters that occur inside the colour escape sequences) with the separator warning iff a FIELD holds the delimiter; distinct_nontrivial counts enumerated scenarios.' % len(PARSING_QUERIES),
+        'rule': 'fault enumeration: one (and two: the first must be named) poisoned record at every position k of tables of 1..6 records x 14 clause placements (SELECT, WHERE, ORDER BY key, GROUP BY key, aggregate argument, aggregate over a failing expression, UPDATE right-hand side, UPDATE target beyond the record, JOIN key on A, composite JOIN key on A (non-adjacent columns), JOIN key on B, missing field under .upper() in SELECT / WHERE, UNNEST list) with poison kinds non-numeric cell under int() / numeric aggregate, missing field, missing join key; %d statically detectable mistakes x 6 spelling / header variants (parsing error, zero records written), %d of them in JS syntax through the JS port; an invalid byte sequence at every offset of a UTF-8 file x 7 sequences x 3 chunk sizes, header / column-list inconsistencies, defective quoted_rfc quoting (IO-handling error); every subset of the anomalies {ragged, malformed quote, separator in simple output, BOM} (+ None from short records) on header-less full-scan queries with the exact iff and the cited record numbers. The same anomaly subsets also through the JS reader (bulk and streamed in two chunks), engine and writer. the poisoned record at every position of 2-6 record tables delivered by front-ends whose own numbering differs from the record number (CSV with header line, comment lines and multi-line cells through query_csv and the command line; a dataframe with a non-default index; a sqlite table with rowid gaps) under six query shapes: query-execution error naming record k; colorized simple / whitespace output (2-17 columns, delimiters that occur inside the colour escape sequences) with the separator warning iff a FIELD holds the delimiter; distinct_nontrivial counts enumerated scenarios.' % (len(PARSING_QUERIES), len(JS_PARSING_QUERIES)),
         'exhaustive': True,
-        'required': ['colorized_output_runs', 'frontend_poison_runs:query_csv', 'frontend_poison_runs:cli', 'frontend_poison_runs:pandas', 'frontend_poison_runs:sqlite', 'header_separator_runs', 'poison_runs', 'parsing_runs', 'bad_byte_runs', 'inconsistent_input_runs', 'warning_runs', 'list_warning_runs', 'field_name_checks', 'no_write_before_parsing_error_checks', 'js_cases',
+        'required': ['colorized_output_runs', 'frontend_poison_runs:query_csv', 'frontend_poison_runs:cli', 'frontend_poison_runs:pandas', 'frontend_poison_runs:sqlite', 'header_separator_runs', 'poison_runs', 'parsing_runs', 'js_parsing_runs', 'js_warning_runs', 'bad_byte_runs', 'inconsistent_input_runs', 'warning_runs', 'list_warning_runs', 'field_name_checks', 'no_write_before_parsing_error_checks', 'js_cases',
                      'warning_iff:bom:present', 'warning_iff:fields:present', 'warning_iff:none:present', 'warning_iff:quote:present', 'warning_iff:sep:present'] + ['poison:' + c for c in CLAUSES],
         'assumptions': ['poison scenarios carry no TOP/LIMIT bound (see C02: the record behind the bound may or may not be evaluated)', 'error texts are never compared: class + record number (tolerant pattern) + field name'],
     }
